@@ -140,12 +140,19 @@ fn two_blocks<T: MomT>(spec: &SlotSpec, cx: &Ctx, ka: usize, e: &Embedding, want
         for &v in &spec.data[ka..] {
             b.add(e.x(v));
         }
-        if reverse {
-            b.merge(&a);
-            check_final::<T>(&b, spec, cx, e, false, want, rep, label, 0, false);
-        } else {
-            a.merge(&b);
-            check_final::<T>(&a, spec, cx, e, false, want, rep, label, 0, false);
+        let merged = std::panic::catch_unwind(std::panic::AssertUnwindSafe(|| {
+            if reverse {
+                b.merge(&a);
+                b
+            } else {
+                a.merge(&b);
+                a
+            }
+        }));
+        match merged {
+            Ok(m) => check_final::<T>(&m, spec, cx, e, false, want, rep, label, 0, false),
+            Err(_) => rep.violation(json!({"property": want.prop, "family": "long", "type": T::NAME, "embedding": e.name, "history": label,
+                "accessor": "panic", "what": "merge panicked", "signature": format!("{}|{}|panic", want.prop, T::NAME)})),
         }
     }
 }
@@ -160,6 +167,52 @@ pub fn direct_long(prop: &str, seed: u64, max_n: usize, types: Vec<String>, emb_
         k *= 10;
     }
     let merged = prop == "C02" || prop == "C17";
+    // ---------------- C11: lengths add exactly, far beyond what adds alone can reach: doubling by
+    // merging clones (2^k observations after k merges), then merging small estimators in.  The
+    // oracle is integer addition (LenExact / MergeLaws of every family specification).
+    if prop == "C11" {
+        fn doubling<T: MomT>(rep: &mut Report) {
+            let len_of = |t: &T| -> u64 { t.len_u64() };
+            rep.replays += 1;
+            let mut a = T::new();
+            a.add(1.5);
+            let mut exact: u64 = 1;
+            let mut small = T::new();
+            small.add(0.5);
+            small.add(2.5);
+            for k in 0..60 {
+                let c = a.clone();
+                a.merge(&c);
+                exact *= 2;
+                if k % 3 == 0 {
+                    a.merge(&small);
+                    exact += 2;
+                    a.add(7.0);
+                    exact += 1;
+                }
+                rep.evaluations += 1;
+                let l = len_of(&a);
+                if l != exact {
+                    rep.violation(json!({"property": "C11", "family": "long", "type": T::NAME, "embedding": "E0",
+                        "history": {"doubling_merges": k + 1, "expected_len": exact.to_string()}, "accessor": "len",
+                        "what": format!("after {} doubling merges len() = {} but lengths must add exactly to {}", k + 1, l, exact),
+                        "signature": format!("C11|{}|len-doubling", T::NAME)}));
+                    return;
+                }
+            }
+        }
+        rep.behaviours += 1;
+        rep.nontrivial.insert(1);
+        rep.nontrivial.insert(2);
+        doubling::<average::Mean>(rep);
+        doubling::<average::Variance>(rep);
+        doubling::<average::Skewness>(rep);
+        doubling::<average::Kurtosis>(rep);
+        doubling::<average::Moments4>(rep);
+        doubling::<m6::M6>(rep);
+        rep.sample(json!({"doubling_history": "x = new+add; repeat 60: x.merge(&x.clone()); every third round also merge a 2-observation estimator and add one"}));
+        return;
+    }
     // ---------------- C16: constant streams, exact contract
     if prop == "C16" {
         for &len in &[1usize, 2, 3, 4, 5, 10, 100, 1000, 10_000] {
@@ -213,6 +266,28 @@ pub fn direct_long(prop: &str, seed: u64, max_n: usize, types: Vec<String>, emb_
                 }
             }
         }
+    }
+    // ---------------- C02 / C19: two LARGE halves (both operands beyond 2^16 observations: integer
+    // count polynomials of degree 4 leave the u64 range there)
+    if prop == "C02" || prop == "C19" {
+        for &(na, nb) in &[(70_000usize, 70_000usize), (140_000, 40)] {
+            let data: Vec<i64> = (0..na + nb).map(|i| ALPHABET[(i * 7 + i / 13) % 5]).collect();
+            let spec = SlotSpec::from_data(data, 4);
+            let cx = Ctx::new(&spec);
+            let label = json!({"two_large_parts": [na, nb]});
+            rep.behaviours += 1;
+            rep.nontrivial.insert(hash_str(&label.to_string()));
+            let want = Want { prop: prop.into(), types: types.clone(), embeddings: vec![] };
+            for e in embs.iter().take(2) {
+                two_blocks::<average::Variance>(&spec, &cx, na, e, &want, rep, &label);
+                two_blocks::<average::Skewness>(&spec, &cx, na, e, &want, rep, &label);
+                two_blocks::<average::Kurtosis>(&spec, &cx, na, e, &want, rep, &label);
+                two_blocks::<average::Moments4>(&spec, &cx, na, e, &want, rep, &label);
+            }
+        }
+    }
+    if prop == "C19" {
+        return; // for the parallel-collection property only the large-operand merges above
     }
     for &n in &ns {
         for (shape, counts) in shapes(n, &mut rng) {
